@@ -75,7 +75,8 @@ type varSite struct {
 	Type   string   `json:"type"`
 	Kind   string   `json:"kind"` // value | reference (map, slice, pointer, interface, chan, func)
 	Writes []string `json:"writes"`
-	Calls  []string `json:"calls"` // method calls with the variable as receiver: func:method
+	Calls  []string `json:"calls"`  // method calls with the variable as receiver: func:method
+	Passed []string `json:"passed"` // the variable itself given as an argument, returned, assigned or its address taken
 }
 
 type callSite struct {
@@ -239,7 +240,7 @@ func transSites(args []string) any {
 							kind = "reference"
 						}
 						rel, _ := filepath.Rel(root, fset.Position(n.Pos()).Filename)
-						v := &varSite{File: rel, Name: n.Name, Type: types.TypeString(obj.Type(), types.RelativeTo(pkg)), Kind: kind, Writes: []string{}, Calls: []string{}}
+						v := &varSite{File: rel, Name: n.Name, Type: types.TypeString(obj.Type(), types.RelativeTo(pkg)), Kind: kind, Writes: []string{}, Calls: []string{}, Passed: []string{}}
 						pkgVars[obj] = v
 						order = append(order, obj)
 					}
@@ -377,7 +378,30 @@ func transSites(args []string) any {
 								v.Writes = append(v.Writes, fname+": "+nodeText(fset, x))
 							}
 						}
+					case *ast.UnaryExpr:
+						if x.Op == token.AND {
+							if id, ok := x.X.(*ast.Ident); ok {
+								if v, ok := pkgVars[info.Uses[id]]; ok {
+									v.Passed = append(v.Passed, fname+": "+nodeText(fset, x))
+								}
+							}
+						}
+					case *ast.ReturnStmt:
+						for _, r := range x.Results {
+							if id, ok := r.(*ast.Ident); ok {
+								if v, ok := pkgVars[info.Uses[id]]; ok {
+									v.Passed = append(v.Passed, fname+": return "+id.Name)
+								}
+							}
+						}
 					case *ast.CallExpr:
+						for _, a := range x.Args {
+							if id, ok := a.(*ast.Ident); ok {
+								if v, ok := pkgVars[info.Uses[id]]; ok {
+									v.Passed = append(v.Passed, fname+": "+nodeText(fset, x.Fun)+"(.."+id.Name+"..)")
+								}
+							}
+						}
 						if se, ok := x.Fun.(*ast.SelectorExpr); ok {
 							if id, ok := se.X.(*ast.Ident); ok {
 								if v, ok := pkgVars[info.Uses[id]]; ok {
@@ -402,6 +426,7 @@ func transSites(args []string) any {
 			v := pkgVars[o]
 			sort.Strings(v.Writes)
 			sort.Strings(v.Calls)
+			sort.Strings(v.Passed)
 			vars = append(vars, *v)
 		}
 	}
